@@ -134,4 +134,295 @@ theorem newNetworkProvider_ingress_lawful (p : PCfg) (cls : RV.Ingress.Class) (s
       (fun g => igCleanB g.2.1 = true) (fun g s => igMu ⟨cls, p.ingName, p.stable, p.canary⟩ g.2.1 s) 2 :=
   ⟨by simp [mkProvider, providerList, hc, hi, hg], onSnd_lawful (onFst_lawful (ig_lawful _ _))⟩
 
+
+/-! ## the old model `RV.Traffic` is the instance `nginxW` -/
+
+/-- the context of the old model as a context of the new one (one ref, `OnlyTrafficRouting = false`, weight-only
+    steps, default grace period 3 s) -/
+def ctxX (c : TCtx) : XCtx (Option Nat) :=
+  { hasRef := c.hasRef, grace := (c.grace : Int), extraGrace := [], defGrace := 3, strategy := c.weight,
+    disableGen := c.disableGen, onlyTR := false, stableRev := c.stableRev, canaryRev := c.canaryRev,
+    lastUpdate := c.lastUpdate, hasRevKey := c.hasRevKey }
+
+/-- the network state of the old model: the provider's objects are (stable Ingress exists, canary weight) -/
+def netX (n : Net) : XNet (Bool × Option Nat) :=
+  ⟨n.stableExists, n.stableSel, n.canarySvc, (n.stableIngress, n.canaryIng)⟩
+
+def netOld (n : XNet (Bool × Option Nat)) : Net := ⟨n.stableExists, n.stableSel, n.canarySvc, n.g.1, n.g.2⟩
+
+/-- an outcome of the new model seen as an outcome of the old one -/
+def outOld (o : XOut (Bool × Option Nat)) : TOut := ⟨o.done, o.err, netOld o.net, o.mem, o.touched, o.writes⟩
+
+theorem netOld_netX (n : Net) : netOld (netX n) = n := rfl
+theorem netX_netOld (n : XNet (Bool × Option Nat)) : netX (netOld n) = n := rfl
+
+theorem graceSec_ctxX (c : TCtx) : (ctxX c).graceSec = c.grace := by
+  simp only [XCtx.graceSec, getGraceSeconds, ctxX, List.isEmpty_cons, Bool.false_eq_true, if_false, List.foldl_cons,
+    List.foldl_nil]
+  by_cases h : (0 : Int) < (c.grace : Int)
+  · simp only [h, if_true]
+    have : ¬ ((c.grace : Int) < 0) := by omega
+    simp [this]
+  · simp only [h, if_false]
+    have : c.grace = 0 := by omega
+    simp [this]
+
+theorem doGrace_ctxX (c : TCtx) : (ctxX c).doGrace > 0 := by
+  unfold XCtx.doGrace
+  split
+  · show (3 : Int) > 0; omega
+  · rename_i h
+    show ((c.grace : Nat) : Int) > 0
+    have : ¬ (((c.grace : Nat) : Int) ≤ 0) := h
+    omega
+
+theorem noGen_ctxX (c : TCtx) : (ctxX c).noGen = c.disableGen := by simp [XCtx.noGen, ctxX]
+
+/-- the Ingress `EnsureRoutes` of the old model reads only the two Ingress fields -/
+theorem ensureRoutes_fields (n : Net) (w : Nat) :
+    RV.Traffic.ensureRoutes ⟨true, none, none, n.stableIngress, n.canaryIng⟩ w = RV.Traffic.ensureRoutes n w := by
+  unfold RV.Traffic.ensureRoutes; rfl
+
+theorem patchStable_is_instance (c : TCtx) (n : Net) (m : Mem) :
+    outOld (patchStableServiceX (ctxX c) Api.ok (netX n) m) = patchStableService c n m := by
+  obtain ⟨se, ss, cs, si, ci⟩ := n
+  unfold patchStableServiceX patchStableService
+  simp only [noGen_ctxX, graceSec_ctxX, Api.read_ok, Api.spend_ok]
+  by_cases h1 : c.hasRef = true
+  · by_cases h2 : c.disableGen = true
+    · simp [ctxX, h1, h2, outOld, XOut.same, netOld_netX]
+    · by_cases h3 : se = true
+      · by_cases h4 : ss.getD "" = c.stableRev
+        · simp [ctxX, h1, h2, h3, h4, outOld, netOld, netX]
+        · simp [ctxX, h1, h2, h3, h4, outOld, netOld, netX]
+      · simp [ctxX, h1, h2, h3, outOld, XOut.same, netOld, netX]
+  · simp [ctxX, h1, outOld, XOut.same, netOld_netX]
+
+theorem restoreStable_is_instance (c : TCtx) (n : Net) (m : Mem) :
+    outOld (restoreStableServiceX (ctxX c) Api.ok (netX n) m) = restoreStableService c n m := by
+  obtain ⟨se, ss, cs, si, ci⟩ := n
+  unfold restoreStableServiceX restoreStableService
+  simp only [graceSec_ctxX, Api.read_ok, Api.spend_ok]
+  by_cases h1 : c.hasRef = true
+  · by_cases h3 : se = true
+    · by_cases hk : c.hasRevKey = true
+      · by_cases h4 : ss.getD "" = ""
+        · simp [ctxX, h1, h3, hk, h4, outOld, netOld, netX]
+        · simp [ctxX, h1, h3, hk, h4, outOld, netOld, netX]
+      · simp [ctxX, h1, h3, hk, outOld, netOld, netX]
+    · simp [ctxX, h1, h3, outOld, XOut.same, netOld, netX]
+  · simp [ctxX, h1, outOld, XOut.same, netOld_netX]
+
+theorem restoreGateway_is_instance (c : TCtx) (n : Net) (m : Mem) :
+    outOld (restoreGatewayX (some nginxW) (ctxX c) Api.ok (netX n) m) = restoreGateway c n m := by
+  obtain ⟨se, ss, cs, si, ci⟩ := n
+  unfold restoreGatewayX restoreGateway finaliseGw
+  simp only [graceSec_ctxX]
+  by_cases h1 : c.hasRef = true
+  · cases h2 : ci <;> simp [ctxX, h1, h2, outOld, netOld, netX, nginxW, XOut.panicked]
+  · simp [ctxX, h1, outOld, XOut.same, netOld_netX]
+
+theorem removeCanary_is_instance (c : TCtx) (n : Net) (m : Mem) :
+    outOld (removeCanaryServiceX (ctxX c) Api.ok (netX n) m) = removeCanaryService c n m := by
+  obtain ⟨se, ss, cs, si, ci⟩ := n
+  unfold removeCanaryServiceX removeCanaryService
+  simp only [noGen_ctxX, graceSec_ctxX, Api.spend_ok]
+  by_cases h1 : c.hasRef = true
+  · by_cases h2 : c.disableGen = true
+    · simp [ctxX, h1, h2, outOld, XOut.same, netOld_netX]
+    · cases h3 : cs <;> simp [ctxX, h1, h2, h3, outOld, netOld, netX]
+  · simp [ctxX, h1, outOld, XOut.same, netOld_netX]
+
+
+theorem routeAll_is_instance (c : TCtx) (n : Net) (m : Mem) :
+    outOld (routeAllToNewX nginxOps (some nginxW) (ctxX c) Api.ok (netX n) m) = routeAllToNew c n m := by
+  obtain ⟨se, ss, cs, si, ci⟩ := n
+  unfold routeAllToNewX routeAllToNew
+  simp only [graceSec_ctxX]
+  by_cases h1 : c.hasRef = true
+  · cases ci with
+    | none =>
+      cases si <;> simp [ctxX, h1, outOld, netOld, netX, nginxW, nginxOps, RV.Traffic.ensureRoutes, XOut.panicked]
+    | some x =>
+      by_cases hx : x = 100
+      · simp [ctxX, h1, hx, outOld, netOld, netX, nginxW, nginxOps, RV.Traffic.ensureRoutes, XOut.panicked]
+      · have hx' : ¬ (some 100 = some x) := by intro h; injection h with h; exact hx h.symm
+        simp [ctxX, h1, hx, hx', outOld, netOld, netX, nginxW, nginxOps, RV.Traffic.ensureRoutes, XOut.panicked]
+  · simp [ctxX, h1, outOld, XOut.same, netOld_netX]
+
+/-- the provider part of `DoTrafficRouting` -/
+theorem routeStep_is_instance (n : Net) (m : Mem) (w : Nat) :
+    outOld (routeStepX (some nginxW) (some w) Api.ok (netX n) m) = routeStep n m w := by
+  obtain ⟨se, ss, cs, si, ci⟩ := n
+  unfold routeStepX routeStep
+  cases ci with
+  | none =>
+    by_cases hw : w = 0
+    · simp [hw, outOld, netOld, netX, nginxW, RV.Traffic.ensureRoutes, XOut.panicked]
+    · cases si <;> simp [hw, outOld, netOld, netX, nginxW, RV.Traffic.ensureRoutes, XOut.panicked]
+  | some x =>
+    by_cases hx : x = w
+    · simp [hx, outOld, netOld, netX, nginxW, RV.Traffic.ensureRoutes, XOut.panicked]
+    · have hx' : ¬ (some w = some x) := by intro h; injection h with h; exact hx h.symm
+      simp [hx, hx', outOld, netOld, netX, nginxW, RV.Traffic.ensureRoutes, XOut.panicked]
+
+
+
+/-- on a healthy API server `RestoreStableService` leaves it healthy -/
+theorem rs_roundX_a {S G : Type} (c : XCtx S) (n : XNet G) (m : Mem) : (restoreStableServiceX c Api.ok n m).a = Api.ok := by
+  unfold restoreStableServiceX
+  simp only [Api.read_ok, Api.spend_ok, Bool.false_eq_true, if_false]
+  split
+  · rfl
+  · split
+    · rfl
+    · split <;> rfl
+
+theorem rg_nginx_a (c : TCtx) (n : Net) (m : Mem) :
+    (restoreGatewayX (some nginxW) (ctxX c) Api.ok (netX n) m).panic = false ∧
+    (restoreGatewayX (some nginxW) (ctxX c) Api.ok (netX n) m).a = Api.ok := by
+  obtain ⟨se, ss, cs, si, ci⟩ := n
+  unfold restoreGatewayX
+  by_cases h1 : (ctxX c).hasRef = true
+  · cases ci <;> simp [h1, netX, nginxW]
+  · simp [h1, XOut.same]
+
+/-- the Service part of `DoTrafficRouting` -/
+theorem svcStep_is_instance (c : TCtx) (n : Net) :
+    (match svcStep c n with
+     | none => svcStepX (ctxX c) Api.ok (netX n) = .wait
+     | some (n2, ws) => svcStepX (ctxX c) Api.ok (netX n) = .ok (netX n2) ws Api.ok) := by
+  obtain ⟨se, ss, cs, si, ci⟩ := n
+  unfold svcStepX svcStep
+  simp only [noGen_ctxX, Api.read_ok, Api.spend_ok]
+  by_cases hd : c.disableGen = true
+  · simp [hd]
+  · by_cases hr : c.stableRev = "" ∨ c.canaryRev = ""
+    · simp [hd, hr, ctxX]
+    · cases cs with
+      | none =>
+        by_cases hs : ss.getD "" = c.stableRev <;> simp [hd, hr, hs, ctxX, netX]
+      | some r =>
+        by_cases hrr : r = c.canaryRev <;> by_cases hs : ss.getD "" = c.stableRev <;>
+          simp [hd, hr, hrr, hs, ctxX, netX]
+
+theorem doTR_is_instance (c : TCtx) (n : Net) (m : Mem) :
+    outOld (doTrafficRoutingX nginxOps (some nginxW) (ctxX c) Api.ok (netX n) m) = doTrafficRouting c n m := by
+  unfold doTrafficRoutingX doTrafficRouting
+  by_cases h1 : c.hasRef = true
+  · cases hw : c.weight with
+    | none => simp [ctxX, h1, hw, nginxOps, outOld, XOut.same, netOld_netX]
+    | some w =>
+      have hstrat : (ctxX c).strategy = some w := hw
+      have hops : (nginxOps.noTraffic (ctxX c).strategy && nginxOps.noMatches (ctxX c).strategy) = false := by
+        simp [nginxOps, hstrat]
+      have hhr : (ctxX c).hasRef = true := h1
+      simp only [hhr, not_true_eq_false, if_false, hops, Bool.false_eq_true, Api.read_ok, h1]
+      by_cases h2 : n.stableExists = true
+      · have h2' : (netX n).stableExists = true := h2
+        simp only [h2', h2, not_true_eq_false, if_false]
+        by_cases h3 : c.lastUpdate = Age.fresh
+        · have : (ctxX c).lastUpdate = Age.fresh ∧ (ctxX c).doGrace > 0 := ⟨h3, doGrace_ctxX c⟩
+          simp [this, h3, outOld, XOut.same, netOld_netX]
+        · have : ¬ ((ctxX c).lastUpdate = Age.fresh ∧ (ctxX c).doGrace > 0) := fun h => h3 h.1
+          simp only [this, if_false, h3]
+          have hsvc := svcStep_is_instance c n
+          cases hs : svcStep c n with
+          | none =>
+            rw [hs] at hsvc
+            simp [hsvc, outOld, XOut.same, netOld_netX]
+          | some pr =>
+            obtain ⟨n2, ws⟩ := pr
+            rw [hs] at hsvc
+            simp only [hsvc]
+            by_cases hws : ws = []
+            · subst hws
+              have hn2 := (RV.Props.Traffic.svcStep_nowrite c n n2 hs).1
+              subst hn2
+              simp only [ne_eq, not_true_eq_false, if_false, hstrat]
+              exact routeStep_is_instance n2 m w
+            · simp [hws, outOld, netOld_netX]
+      · have h2' : ¬ (netX n).stableExists = true := h2
+        simp [h2', h2, outOld, XOut.same, netOld_netX]
+  · have hhr : (ctxX c).hasRef = false := by
+      have : c.hasRef = false := by simpa using h1
+      exact this
+    simp [hhr, h1, outOld, XOut.same, netOld_netX]
+
+theorem finalising_is_instance (c : TCtx) (n : Net) (m : Mem) :
+    outOld (finalisingTrafficRoutingX (some nginxW) (ctxX c) Api.ok (netX n) m) = finalisingTrafficRouting c n m := by
+  have e1 := restoreStable_is_instance c n m
+  unfold finalisingTrafficRoutingX finalisingTrafficRouting
+  by_cases h1 : c.hasRef = true
+  · have hhr : (ctxX c).hasRef = true := h1
+    simp only [hhr, h1, not_true_eq_false, if_false]
+    -- first call
+    have a1 : (restoreStableServiceX (ctxX c) Api.ok (netX n) m).a = Api.ok :=
+      (rs_roundX_a (ctxX c) (netX n) m)
+    generalize hr1 : restoreStableServiceX (ctxX c) Api.ok (netX n) m = r1 at e1 a1
+    generalize ho1 : restoreStableService c n m = o1 at e1
+    have f1 : r1.done = o1.done ∧ r1.err = o1.err ∧ netOld r1.net = o1.net ∧ r1.mem = o1.mem ∧ r1.touched = o1.touched ∧
+        r1.writes = o1.writes := by
+      rw [← e1]; exact ⟨rfl, rfl, rfl, rfl, rfl, rfl⟩
+    obtain ⟨fd, fe, fn, fm, ft, fw⟩ := f1
+    by_cases hc1 : o1.err = true ∨ o1.done = true
+    · have : r1.err = true ∨ r1.done = true := by rw [fd, fe]; exact hc1
+      simp only [this, hc1, if_true, outOld]
+      rw [fe, fn, fm, ft, fw]
+    · have : ¬ (r1.err = true ∨ r1.done = true) := by rw [fd, fe]; exact hc1
+      simp only [this, hc1, if_false, a1]
+      -- second call: on the same state
+      have hnet : r1.net = netX o1.net := by rw [← fn, netX_netOld]
+      have e2 := restoreGateway_is_instance c o1.net o1.mem
+      rw [hnet, fm]
+      have p2 : (restoreGatewayX (some nginxW) (ctxX c) Api.ok (netX o1.net) o1.mem).panic = false ∧
+          (restoreGatewayX (some nginxW) (ctxX c) Api.ok (netX o1.net) o1.mem).a = Api.ok := rg_nginx_a c o1.net o1.mem
+      generalize hr2 : restoreGatewayX (some nginxW) (ctxX c) Api.ok (netX o1.net) o1.mem = r2 at e2 p2
+      generalize ho2 : restoreGateway c o1.net o1.mem = o2 at e2
+      have f2 : r2.done = o2.done ∧ r2.err = o2.err ∧ netOld r2.net = o2.net ∧ r2.mem = o2.mem ∧ r2.touched = o2.touched ∧
+          r2.writes = o2.writes := by
+        rw [← e2]; exact ⟨rfl, rfl, rfl, rfl, rfl, rfl⟩
+      obtain ⟨gd, ge, gn, gm, gt, gw⟩ := f2
+      simp only [p2.1, Bool.false_eq_true, if_false]
+      by_cases hc2 : o2.err = true ∨ o2.done = true
+      · have : r2.err = true ∨ r2.done = true := by rw [gd, ge]; exact hc2
+        simp only [this, hc2, if_true, outOld]
+        rw [ge, gn, gm, gt, gw, ft, fw]
+      · have : ¬ (r2.err = true ∨ r2.done = true) := by rw [gd, ge]; exact hc2
+        simp only [this, hc2, if_false, p2.2]
+        have hnet2 : r2.net = netX o2.net := by rw [← gn, netX_netOld]
+        have e3 := removeCanary_is_instance c o2.net o2.mem
+        rw [hnet2, gm]
+        generalize hr3 : removeCanaryServiceX (ctxX c) Api.ok (netX o2.net) o2.mem = r3 at e3
+        generalize ho3 : removeCanaryService c o2.net o2.mem = o3 at e3
+        have f3 : r3.done = o3.done ∧ r3.err = o3.err ∧ netOld r3.net = o3.net ∧ r3.mem = o3.mem ∧ r3.touched = o3.touched ∧
+            r3.writes = o3.writes := by
+          rw [← e3]; exact ⟨rfl, rfl, rfl, rfl, rfl, rfl⟩
+        obtain ⟨kd, ke, kn, km, kt, kw⟩ := f3
+        by_cases hc3 : o3.err = true ∨ o3.done = true
+        · have : r3.err = true ∨ r3.done = true := by rw [kd, ke]; exact hc3
+          simp only [this, hc3, if_true, outOld]
+          rw [ke, kn, km, ft, gt, fw, gw, kw]
+        · have : ¬ (r3.err = true ∨ r3.done = true) := by rw [kd, ke]; exact hc3
+          simp only [this, hc3, if_false, outOld]
+          rw [kn, km, ft, gt, fw, gw, kw]
+  · have hhr : (ctxX c).hasRef = false := by
+      have : c.hasRef = false := by simpa using h1
+      exact this
+    simp [hhr, h1, outOld, netOld_netX]
+
+/-- **`traffic_is_instance`** — the old model `RV.Traffic` (Manager over "nginx canary Ingress with a weight") is
+    the instance of the generic Manager at the provider `nginxW`, on a healthy API server: all seven Manager
+    functions agree.  The theorems of `RV/Props/TrafficThms.lean` are therefore statements about this instance. -/
+theorem traffic_is_instance (c : TCtx) (n : Net) (m : Mem) :
+    outOld (patchStableServiceX (ctxX c) Api.ok (netX n) m) = patchStableService c n m ∧
+    outOld (restoreStableServiceX (ctxX c) Api.ok (netX n) m) = restoreStableService c n m ∧
+    outOld (restoreGatewayX (some nginxW) (ctxX c) Api.ok (netX n) m) = restoreGateway c n m ∧
+    outOld (removeCanaryServiceX (ctxX c) Api.ok (netX n) m) = removeCanaryService c n m ∧
+    outOld (routeAllToNewX nginxOps (some nginxW) (ctxX c) Api.ok (netX n) m) = routeAllToNew c n m ∧
+    outOld (finalisingTrafficRoutingX (some nginxW) (ctxX c) Api.ok (netX n) m) = finalisingTrafficRouting c n m ∧
+    outOld (doTrafficRoutingX nginxOps (some nginxW) (ctxX c) Api.ok (netX n) m) = doTrafficRouting c n m :=
+  ⟨patchStable_is_instance c n m, restoreStable_is_instance c n m, restoreGateway_is_instance c n m,
+   removeCanary_is_instance c n m, routeAll_is_instance c n m, finalising_is_instance c n m, doTR_is_instance c n m⟩
+
 end RV.Props.TrafficX
